@@ -83,16 +83,22 @@ pub struct ScriptBus {
     pub blocked: bool,
     pub calls_after_error: usize,
     pub errored: bool,
+    /// once the bus has failed it stays failed and takes no further note of what it is given (for callers whose page
+    /// iterator makes calls of its own and shrugs off their errors)
+    pub sticky: bool,
 }
 
 impl ScriptBus {
     pub fn new(script: Vec<Reply>) -> Self {
-        ScriptBus { slow_at: None, script: script.into(), trace: vec![], blocked: false, calls_after_error: 0, errored: false }
+        ScriptBus { slow_at: None, script: script.into(), trace: vec![], blocked: false, calls_after_error: 0, errored: false, sticky: false }
     }
 }
 
 impl SignBus for ScriptBus {
     fn process_message<'a>(&mut self, message: Message<'_>) -> Result<Option<Message<'a>>, Box<dyn Error + Send + Sync>> {
+        if self.sticky && (self.errored || self.blocked) {
+            return Err(Box::new(ScriptError("the bus has failed")));
+        }
         if self.errored || self.blocked {
             self.calls_after_error += 1;
         }
@@ -239,6 +245,27 @@ pub fn run_cop_on(sign: &Sign, op: &str) -> Option<Result<String, SignError>> {
                 if let Some(b) = &bus {
                     let _look = b.borrow();
                 }
+            });
+            guarded(|| sign.send_pages(it).map(|s| format!(".{}", str_style(s))))
+        }
+        "SNN" => {
+            // SNN.a.<calls>.<pages>: the caller's iterator makes calls of its own on the same bus each time a page is taken
+            // from it -- on this very Sign object when the call is for this sign, on a Sign of its own otherwise -- and
+            // shrugs off their errors (a panic in them is a panic of the iterator)
+            let (nested, pages_s) = p[2].split_once('.').expect("SNN needs calls and pages");
+            let pages = pages_of_str(pages_s);
+            let pre: Vec<Vec<String>> = nested.split('~').map(|f| if f == "-" { vec![] } else { f.split('/').map(|c| c.replace(':', ".")).collect() }).collect();
+            let bus = PEEK_BUS.with(|b| b.borrow().clone()).expect("a bus");
+            let it = pages.iter().enumerate().map(|(i, pg)| {
+                for c in pre.get(i).map(|v| &v[..]).unwrap_or(&[]) {
+                    let q: Vec<&str> = c.splitn(3, '.').collect();
+                    let same_sign = Address(num::<u16>(q[1])) == sign.address() && ((q[0] != "CFG" && q[0] != "CIN") || SIGN_TYPES[num::<usize>(q[2])] == sign.sign_type());
+                    let r = if same_sign { run_cop_on(sign, c) } else { run_cop(c, bus.clone()) };
+                    if r.is_none() {
+                        panic!("the call made by the page iterator panicked");
+                    }
+                }
+                pg
             });
             guarded(|| sign.send_pages(it).map(|s| format!(".{}", str_style(s))))
         }
@@ -1069,7 +1096,9 @@ fn eval_case_inner(line: &str) -> String {
                 return " => NOPAGE".to_string();
             }
             let script: Vec<Reply> = t[2..].iter().map(|s| reply_of_str(s)).collect();
-            let bus = Rc::new(RefCell::new(ScriptBus::new(script)));
+            let mut sb = ScriptBus::new(script);
+            sb.sticky = t[1].starts_with("SNN.");
+            let bus = Rc::new(RefCell::new(sb));
             let r = run_cop(t[1], bus.clone());
             let b = bus.borrow();
             let trace: Vec<String> = b.trace.iter().map(str_msg).collect();
